@@ -423,6 +423,35 @@ pub fn run(ctx: &Ctx) -> i32 {
         st.count(&format!("random_{name}"));
         check_case(ctx, st, &tmp, 100_000 + i, &tcs, s);
     });
+    // every blank / ignorable character as the very first and very last character of the input
+    {
+        let ws = gen::alphabet("ws");
+        let mut cases: Vec<Vec<String>> = vec![];
+        for c in &ws {
+            if c == "\n" || c == "\r" {
+                continue;
+            }
+            cases.push(vec![format!("{c}abc"), "def".to_string()]);
+            cases.push(vec![c.clone(), "x".to_string()]);
+            cases.push(vec!["abc".to_string(), format!("def{c}")]);
+        }
+        par_for(&ctx.run, cases.len(), |i, st| {
+            st.count("ignorable_first_last_character_cases");
+            check_case(ctx, st, &tmp, 300_000 + i, &cases[i], Settings::new(0));
+        });
+        // results with hundreds of class tokens (larger than the regex crate's default size limit)
+        let heavy: Vec<(Vec<String>, u32)> = vec![
+            (vec!["x".repeat(300)], WORD),
+            (vec!["x".repeat(260), "y".repeat(255)], WORD | REP),
+            (vec!["-".repeat(300)], NWORD),
+            (vec!["7".repeat(2400)], DIGIT),
+            (vec!["ab ".repeat(120)], WORD | SPACE),
+        ];
+        par_for(&ctx.run, heavy.len(), |i, st| {
+            st.count("class_heavy_large_results");
+            check_case(ctx, st, &tmp, 400_000 + i, &heavy[i].0, Settings::new(heavy[i].1));
+        });
+    }
     // large inputs through every channel: many lines / long lines / sizes around I/O buffer boundaries
     {
         let mut big: Vec<Vec<String>> = vec![];
